@@ -284,6 +284,31 @@ def rec_seeded_cache(vc, rid, name, base, tr):
     return r
 
 
+def rec_int_points(vc, rid, name, base, tr):
+    """integer-typed evaluation points and transformation arguments give the numbers of the same values as floats
+    (D86: int8 / int16 points overflowed in tz * tz and tz ** 3)"""
+    r = dict(id=rid, kind="samples", exc="", name=name + " integer-typed points")
+    try:
+        t = tmodel(vc, base, tr)
+        vt = vc.variable_transform
+        ok = True
+        pts = np.array([[2, 6], [3, 7], [9, 33], [1, 12]])
+        ref = np.asarray(t.pdf(pts.astype(float)), dtype=float)
+        for dt in ("int8", "uint8", "int16", "int32", "int64"):
+            ok = ok and np.array_equal(np.asarray(t.pdf(pts.astype(dt)), dtype=float), ref)
+        hs, tz = np.array([2, 5, 9]), np.array([12, 9, 33])
+        for f in (vt.hs_tz_to_s_d, vt.hs_tz_to_hs_s, vt.hs_tz_to_s_tz):
+            a = [np.asarray(v, dtype=float) for v in f(hs.astype(float), tz.astype(float))]
+            for dt in ("int8", "int16", "int64"):
+                b = [np.asarray(v, dtype=float) for v in f(hs.astype(dt), tz.astype(dt))]
+                ok = ok and all(np.array_equal(u, v) for u, v in zip(a, b))
+        r["equal"] = bool(ok)
+        r["shapeok"] = bool(ref.shape == (4,) and np.all(ref >= 0))
+    except Exception as ex:  # noqa
+        r["exc"] = f"{type(ex).__name__}: {ex}"[:200]
+    return r
+
+
 def rec_cond_size(vc, rid, name, base, tr):
     """conditional_sample returns exactly n values, and warns only if it could not collect them, whatever max_iter (D61)"""
     r = dict(id=rid, kind="samples", exc="", name=name + " conditional_sample size")
@@ -578,6 +603,17 @@ def run(ctx):
         add(rec_samples(vc, nid(), name, base, tr, rng, int(rng.choice([1, 10, 1000, 100000]))))
     add(rec_seeded_cache(vc, nid(), models[ctx.seed % 2][0], models[ctx.seed % 2][1], models[ctx.seed % 2][2]))
     add(rec_cond_size(vc, nid(), models[0][0], models[0][1], models[0][2]))
+    add(rec_int_points(vc, nid(), models[(ctx.seed + 1) % 2][0], models[(ctx.seed + 1) % 2][1], models[(ctx.seed + 1) % 2][2]))
+    if not ctx.quick:
+        # a conditional so narrow that the rejection sampler reaches its iteration limit and returns a SHORT sample (D85:
+        # conditional_cdf divided by the requested size); slow (100 iterations), thorough tier only
+        dd, fd, sem, trw = vc.get_Windmeier_EW_Hs_S()
+        dd[0]["distribution"] = vc.ExponentiatedWeibullDistribution(1.5, 0.69, 8)
+        bw = vc.GlobalHierarchicalModel(dd)
+        cw = bw.distributions[1]
+        cw.conditional_parameters["alpha"].parameters = dict(zip(list(cw.conditional_parameters["alpha"].parameters), (0.08, 1.0)))
+        cw.conditional_parameters["beta"].parameters = dict(zip(list(cw.conditional_parameters["beta"].parameters), (1.4, 4.0)))
+        add(rec_cond(vc, nid(), "short-sample:Windmeier steep beta", bw, trw, 0.999999, rng))
     # sizes above one million (block-wise drawing must not restart the seeded stream)
     for name, base, tr in models[:ctx.pick(1, 3)]:
         add(rec_samples(vc, nid(), name + " n>1e6", base, tr, rng, ctx.pick(1200000, 3500000)))
